@@ -447,6 +447,12 @@ def _corpus():
         actors += [{"proc": 0, "ops": [["wait", None]]} for _ in range(n_untimed)]
         actors.append({"proc": 0, "ops": [["sleep", 0.3], [nkind]]})
         out.append({"prim": "cond", "n": 1, "actors": actors + late, "schedule": {"kind": "pb", "preempt": []}})
+    # the notifier races with the waiters' *entry* into wait() (no delay): a notify issued once a waiter has given up the lock
+    # must count it as a sleeper
+    for n_untimed, nkind in ((1, "notify"), (2, "notify_all"), (2, "notify")):
+        actors = [{"proc": 0, "ops": [["wait", None]]} for _ in range(n_untimed)]
+        actors.append({"proc": 0, "ops": [[nkind]]})
+        out.append({"prim": "cond", "n": 1, "actors": actors + late, "schedule": {"kind": "pb", "preempt": []}})
     ev = [{"proc": 0, "ops": [["ewait", None]]}, {"proc": 1, "ops": [["ewait", 0.5], ["is_set"]]},
           {"proc": 0, "ops": [["sleep", 0.3], ["set"], ["clear"]]},
           {"proc": 0, "ops": [["sleep", LATE], ["observe"], ["set"], ["sleep", 10.0], ["is_set"]]}]
